@@ -1,2 +1,45 @@
+/-
+  C14 — SD-card files are transparently en/decrypted with the path-derived counter.
+  `lower` is str.lower and `H` SHA-256 (parameters); the data plane is the CTR wrapper of C01/C12.
+-/
+import Proofs.SdProofs
+import Proofs.CtrRefines
+import Proofs.PyFileRefines
 namespace Pyctr.C14
+open Pyctr Pyctr.Sd Pyctr.Romfs
+
+/-- the counter is derived from SHA-256 of the lower-cased, forward-slashed, NUL-terminated UTF-16LE path (halves
+    XORed) — for every path outside the '/backup…' alias guard (the guarded paths are the known finding
+    `sd.backup-alias`) -/
+theorem C14_iv_partial (lower : Str → Str) (H : Bytes → Bytes) (p : Str)
+    (h : (startsWith (fwd (lower p)) strBackup && (fwd (lower p)).length > 28) = false) :
+    sdIv lower H p =
+      (let hsh := H (encodeUtf16 (fwd (lower p)) ++ [0, 0]); readBE (slice hsh 0 16) ^^^ readBE (slice hsh 16 16)) :=
+  sdIv_plain lower H p h
+
+/-- case-insensitivity, for every input -/
+theorem C14_case_insensitive (lower : Str → Str) (H : Bytes → Bytes) (p q : Str) (h : lower p = lower q) :
+    sdIv lower H p = sdIv lower H q := sdIv_case lower H p q h
+
+/-- separator-insensitivity, for every input (given that lower-casing does not create or destroy separators) -/
+theorem C14_separator_insensitive (lower : Str → Str) (H : Bytes → Bytes) (p : Str)
+    (hl : ∀ s, fwd (lower (fwd s)) = fwd (lower s)) : sdIv lower H (fwd p) = sdIv lower H p := sdIv_sep lower H p hl
+
+/-- ID0 = the four little-endian words of SHA-256(KeyY)[:16], each written big-endian (i.e. byte-reversed) -/
+theorem C14_id0 (H : Bytes → Bytes) (key : Bytes) (hH : 16 ≤ (H key).length) :
+    id0Of H key = (List.range 4).flatMap fun w => (slice (slice (H key) 0 16) (4 * w) 4).reverse := id0_words H key hH
+
+/-- the three accepted movable.sed lengths, key at 0x110 for the long forms; everything else is rejected -/
+theorem C14_lengths (data : Bytes) :
+    (data.length = 0x10 → sdKeyOf data = .ok data) ∧
+    (data.length = 0x120 ∨ data.length = 0x140 → sdKeyOf data = .ok (slice data 0x110 0x10)) ∧
+    (data.length ≠ 0x10 → data.length ≠ 0x120 → data.length ≠ 0x140 →
+      sdKeyOf data = .error (.other "BadMovableSedError")) := sdKey_lengths data
+
+/-- reading returns the CTR decryption and writing stores the matching ciphertext: the SD file handle is the CTR
+    wrapper (slot 0x34 ≥ 4 ⇒ 3DS flavour) over the backing file, so C12's coupling applies with the path counter -/
+theorem C14_rw (E : Bytes → Bytes) :
+    IsFileW (CtrIO.ops PyFile.ops E) (CtrIO.invCtr (fun _ => True) PyFile.abs) (CtrIO.absCtr E PyFile.abs) :=
+  CtrIO.ctr_isFileW E pyfile_isFile.toIsFileW
+
 end Pyctr.C14
